@@ -1,13 +1,59 @@
-// Command gen/c17 prints coq/Gen/C17Facts.v from the /repo working tree (terms, never verdicts).
+// Command gen/c17 prints coq/Gen/C17Facts.v from the /repo working tree (terms, never verdicts):
+// the go/ast facts about the ante routing and the commission guard (antefacts, shared with C02), and —
+// from the LINKED application, because depinject wiring is invisible to go/ast — the set of message
+// carriers: every registered sdk.Msg type with a google.protobuf.Any field that accepts an sdk.Msg or with
+// an accessor returning []sdk.Msg, split by whether the msg service router can execute it.
 package main
 
 import (
+	"fmt"
+	"sort"
+	"strings"
+
+	"verifharness/c17/carriers"
 	"verifharness/gen/c17/antefacts"
 	. "verifharness/genlib"
+	"verifharness/hx"
 )
+
+func strList(l []string) string {
+	var q []string
+	for _, s := range l {
+		q = append(q, CoqString(s))
+	}
+	return "[" + strings.Join(q, "; ") + "]"
+}
 
 func main() {
 	repo := Repo()
 	Header(repo)
 	antefacts.Emit(repo)
+
+	c := hx.NewChain(nil)
+	var routed, unrouted, opaque []string
+	nAny, nMsgs := 0, 0
+	for _, i := range carriers.Probe(c.App.InterfaceRegistry(), c.App.MsgServiceRouter()) {
+		nMsgs++
+		if len(i.AnyFields) > 0 {
+			nAny++
+		}
+		switch {
+		case i.Carries() && i.Routed:
+			routed = append(routed, i.URL)
+		case i.Carries():
+			unrouted = append(unrouted, i.URL)
+		case len(i.OpaqueFields) > 0 && i.Routed:
+			opaque = append(opaque, i.URL)
+		}
+	}
+	sort.Strings(routed)
+	sort.Strings(unrouted)
+	sort.Strings(opaque)
+	fmt.Printf("(* linked application: %d registered sdk.Msg types, %d with google.protobuf.Any fields *)\n", nMsgs, nAny)
+	// message types the msg service router executes and that carry sdk.Msgs (an Any field accepting an sdk.Msg / a []sdk.Msg accessor)
+	fmt.Printf("Definition routed_msg_carriers : list string := %s.\n", strList(routed))
+	// routed message types with an Any field their UnpackInterfaces never looks at (content unknown to the probe)
+	fmt.Printf("Definition routed_opaque_any : list string := %s.\n", strList(opaque))
+	// carriers known to the codec but without a handler: a transaction naming them fails
+	fmt.Printf("Definition unrouted_msg_carriers : list string := %s.\n", strList(unrouted))
 }
